@@ -53,14 +53,15 @@ func nodeLogger(name string) zerolog.Logger {
 
 // NodeKnobs is the per-run configuration of an auth node.
 type NodeKnobs struct {
-	Cluster      bool `json:"cluster"`        // cluster-apply mode (writes go through the proposer and the real ClusterFSM)
-	Follower     bool `json:"follower"`       // cluster mode only: a second node applies the log with lag
-	Licensed     bool `json:"licensed"`       // licence with the RBAC feature
-	AuthTTLMs    int  `json:"auth_ttl_ms"`    // AuthManager cache TTL
-	AuthCacheMax int  `json:"auth_cache_max"` // AuthManager cache size
-	RBACTTLMs    int  `json:"rbac_ttl_ms"`    // RBACManager cache TTL
-	RBACCacheMax int  `json:"rbac_cache_max"` // RBACManager cache size (per cache)
-	YieldOnDB    bool `json:"yield_on_db"`    // extra schedule point before every connection acquisition
+	Cluster      bool `json:"cluster"`                  // cluster-apply mode (writes go through the proposer and the real ClusterFSM)
+	Follower     bool `json:"follower"`                 // cluster mode only: a second node applies the log with lag
+	Licensed     bool `json:"licensed"`                 // licence with the RBAC feature
+	AuthTTLMs    int  `json:"auth_ttl_ms"`              // AuthManager cache TTL
+	AuthCacheMax int  `json:"auth_cache_max"`           // AuthManager cache size
+	RBACTTLMs    int  `json:"rbac_ttl_ms"`              // RBACManager cache TTL
+	RBACCacheMax int  `json:"rbac_cache_max"`           // RBACManager cache size (per cache)
+	HoldYieldPct int  `json:"hold_yield_pct,omitempty"` // simrt.Config.HoldYieldPct: preemption while holding a lock
+	YieldOnDB    bool `json:"yield_on_db"`              // extra schedule point before every connection acquisition
 }
 
 // authNode is one simulated arc node: real AuthManager + RBACManager over a
@@ -187,7 +188,9 @@ func (n *authNode) wireFSM() {
 		func(e *clusterraft.TokenMembershipEntry) {
 			n.noteApply("AddTokenToTeam", rm.ApplyAddTokenToTeam(toAuthMembership(e)))
 		},
-		func(tokenID, teamID int64) { n.noteApply("RemoveTokenFromTeam", rm.ApplyRemoveTokenFromTeam(tokenID, teamID)) },
+		func(tokenID, teamID int64) {
+			n.noteApply("RemoveTokenFromTeam", rm.ApplyRemoveTokenFromTeam(tokenID, teamID))
+		},
 	)
 }
 
